@@ -22,6 +22,7 @@ using namespace sim;
 static void guardHostDepthReset();
 static uint64_t threadsCreatedCount = 0;
 static bool semTimedwaitMissing = false;
+static uint64_t threadCreateFailures = 0;
 namespace {
 struct Mx { bool inited, destroyed, recursive; int owner, depth; std::vector<int> waiters; };
 struct Cv { bool destroyed; std::vector<int> waiters; };
@@ -34,7 +35,7 @@ std::vector<Th*> ths;
 uint64_t cond_after_destroy = 0;
 int nproc_knob = 4;
 
-void resetSync() { threadsCreatedCount = 0; semTimedwaitMissing = false; guardHostDepthReset(); mxs.clear(); cvs.clear(); sms.clear(); for (Th* t : ths) delete t; ths.clear(); cond_after_destroy = 0; }
+void resetSync() { threadsCreatedCount = 0; semTimedwaitMissing = false; threadCreateFailures = 0; guardHostDepthReset(); mxs.clear(); cvs.clear(); sms.clear(); for (Th* t : ths) delete t; ths.clear(); cond_after_destroy = 0; }
 struct Reg { Reg() { addResetHook(resetSync); } } reg;
 
 struct HostG { HostG() { g_host_depth_export++; } ~HostG() { g_host_depth_export--; } };
@@ -81,7 +82,7 @@ int64_t tsToMono(const struct timespec* ts, clockid_t clk) {
 }
 }
 
-namespace sim { uint64_t threadsCreated() { return threadsCreatedCount; } uint64_t threadsNotJoined() { uint64_t n = 0; for (Th* t : ths) if (!t->joined) n++; return n; } void setProcessorCount(int n) { nproc_knob = n; } void setSemTimedwaitMissing(bool m) { semTimedwaitMissing = m; } uint64_t condOpsAfterDestroy() { return cond_after_destroy; } }
+namespace sim { uint64_t threadsCreated() { return threadsCreatedCount; } uint64_t threadsNotJoined() { uint64_t n = 0; for (Th* t : ths) if (!t->joined) n++; return n; } void setProcessorCount(int n) { nproc_knob = n; } void setSemTimedwaitMissing(bool m) { semTimedwaitMissing = m; } uint64_t threadCreateFailureCount() { return threadCreateFailures; } uint64_t condOpsAfterDestroy() { return cond_after_destroy; } }
 
 extern "C" {
 
@@ -241,6 +242,8 @@ static void threadMain(void* a) { Th* t = (Th*)a; t->ret = t->fn(t->arg); }
 int __wrap_pthread_create(pthread_t* out, const pthread_attr_t* attr, void* (*fn)(void*), void* arg) {
   if (!inTask()) return pthread_create(out, attr, fn, arg);
   HostG h; chargeCall(); yieldSync();
+  if (choose(K_THREADFAIL, 2)) {   /* like glibc, the handle has already been stored when the creation of the kernel thread fails */
+    fault("pthread_create_eagain"); threadCreateFailures++; *out = (pthread_t)0x7A5C00000000FFFFULL; return EAGAIN; }
   threadsCreatedCount++;
   Th* t = new Th{fn, arg, 0, 0, false};
   ths.push_back(t);
